@@ -24,6 +24,8 @@ open Drv_tmpl
          contains both an allow-listed token (reviewed list) and stylesheet; failing attribute link.href
      D4  a defined template called from two attribute-value sites with different static prefixes (or, on link
          elements, different static rel values), one of them in an attribute of the failing name
+     D44 the end tag opener of a script / style element inside that element's start tag in static text; failing
+         class script / rawtext;
      D13 the four characters that open an HTML comment inside a script element body in static text; failing
          class = script data *)
 
@@ -256,6 +258,21 @@ let finding_d13 (inf : info) : bool =
              (match find_sub (String.sub t j (e - j)) "<!--" 0 with Some _ -> true | None -> go (e + 1))) in
       go 0) inf.bodies
 
+(* D44: the end tag opener of a script / style element stands inside that element's START tag in the
+   static text (before the first closing bracket after the start tag opener): the engine takes it for
+   the end of the element, the tokenizer for attribute text *)
+let finding_d44 (inf : info) : bool =
+  List.exists (fun (_, b) ->
+      let t = lower (static_text b) in
+      List.exists (fun el ->
+          let rec go from =
+            match find_sub t ("<" ^ el) from with
+            | None -> false
+            | Some i ->
+              let j = match String.index_from_opt t i '>' with Some j -> j | None -> String.length t in
+              (match find_sub (String.sub t i (j - i)) ("</" ^ el) 0 with Some _ -> true | None -> go (i + 1)) in
+          go 0) ["script"; "style"]) inf.bodies
+
 (* ---------------------------------------------------------------- correspondence for  pre {{.}} post *)
 let dot_pipe : V.pipe = { V.p_decls = []; p_cmds = [[V.ADot]] }
 
@@ -332,7 +349,9 @@ let () =
           | Some (off, cls) ->
             let inf = analyse text in
             specfail id (Printf.sprintf "untrusted_bytes_in_code_position:%s@%d%s" (class_name cls) (int_of_n off)
-                           (tag_finding [("D13", cls = V.PScript && finding_d13 inf); ("D1", finding_d1 inf)]))
+                           (tag_finding [("D13", cls = V.PScript && finding_d13 inf);
+                                         ("D44", (match cls with V.PScript | V.PRawtext _ -> finding_d44 inf | _ -> false));
+                                         ("D1", finding_d1 inf)]))
           | None ->
             match V.c02_origin_clause markers out with
             | Some (e, a) ->
